@@ -78,14 +78,16 @@ Proof.
 Qed.
 
 (* the last clause — a write that raises. In every state reachable by API calls and writes, a write that FAILS (for any
-   reason, at any point) leaves the sets, the physical registry and the registry of every logical file exactly as they were,
+   reason, at any point) leaves the sets, the physical registry and, for every logical file, its header fields, registry and no-format
+   calls (lf_static: everything but the data dictionary) exactly as they were,
    every object with its type, and every attribute value / units the user gave; all it can leave behind are write-time
    defaults at the listed sites (Proofs/KeepP.v, regenerated from the source) where nothing had been given. What those
    defaults then do to a later write with OTHER data is known finding D9 (C13/C14), not covered here. *)
+Print lf_static.
 Theorem C20_failed_write_keeps_the_specification : forall l ps hc w st' e,
   let st := snd (run_actions ps b_init l) in
   write hc st w = (st', Err e) ->
-  b_sets st' = b_sets st /\ b_phys st' = b_phys st /\ map l_reg (b_lfs st') = map l_reg (b_lfs st)
+  b_sets st' = b_sets st /\ b_phys st' = b_phys st /\ map lf_static (b_lfs st') = map lf_static (b_lfs st)
   /\ forall i idx,
        let ty := i_ty (item_at st i) in
        let v := fst (get_attr (item_at st i) idx) in let v' := fst (get_attr (item_at st' i) idx) in
